@@ -115,6 +115,10 @@ def translate_lag(labels, rng, scn):
         elif ev == 'Unschedule':
             gone.add(args[0])
             hist.append(('DeleteApp', [args[0]]))
+        elif ev == 'AppsEvent':
+            hist.append(('SetPrio', [args[0], rng.choice([1, 50, 100])]))
+        elif ev == 'DeliverApps':
+            hist.append(('DeliverPath', ['events']))
         elif ev in ('NodeDown', 'DeleteServer'):
             hist.append((ev, [args[0]]))
         elif ev in ('NodeUp', 'CreateServer'):
@@ -336,13 +340,14 @@ def run(ctx, prop):
             ctx.log('PendingStart.tla: %s violated in the MODEL' % pres['violated'])
     if prop in ('C10', 'C09'):
         # watch latency (MasterLag.tla): cycles on a view that lags the store
-        lme, lmc = (5, 4) if ctx.quick else (9, 8)
+        lme, lmc = (5, 4) if ctx.quick else (8, 7)
         lmod, lcfg, lfiles = lag_cfg(max_events=lme, max_cycles=lmc)
         lres = tlc.mc(mc.SPEC_DIR, lmod, lcfg, extra_files=lfiles, coverage=True,
                       timeout=300 if ctx.quick else 2400)
         ctx.add_mc('MasterLag.tla (watch latency) 2 servers 2 instances events<=%d cycles+restarts<=%d'
                    % (lme, lmc), lres,
-                   need_actions=['DeliverScheduled', 'DeliverPresence', 'DeliverServers', 'DeleteServer',
+                   need_actions=['DeliverScheduled', 'DeliverPresence', 'DeliverServers', 'DeliverApps',
+                                 'AppsEvent', 'DeleteServer',
                                  'CreateServer', 'Cycle', 'PubStep', 'Finish', 'Crash', 'Restart',
                                  'InitSchedule'])
         if lres['violated']:
@@ -503,7 +508,8 @@ def selftest(ctx, prop):
     if prop == 'C10':
         # MasterLag.tla: each repaired watch-latency defect, switched on, is found
         for defects, inv in [(('init_known_only',), 'InvSettled'), (('drop_no_withdraw',), 'InvNoDup'),
-                             (('integrity_first_seen', 'init_known_only'), 'InvNoAssert')]:
+                             (('integrity_first_seen', 'init_known_only'), 'InvNoAssert'),
+                             (('apps_event_no_unpublish',), 'InvSettled')]:
             mod, cfg, files = lag_cfg(defects=defects, invariants=[inv])
             res = tlc.mc(mc.SPEC_DIR, mod, cfg, extra_files=files, coverage=False, timeout=600)
             good = res['violated'] == inv
